@@ -9,12 +9,18 @@ under no fault), `Lemmas/FwSessionNat.lean`, `Lemmas/FwSessionNatProc.lean` (par
 characterisation, DESIGN Appendix A.2), `Lemmas/FwSessionMain.lean` (the session),
 `Lemmas/FwSessionPins.lean` (the source structure the model was written for).
 
-Proved here for the **nat** method, both address families, with and without DNS rules, excludes,
-user/group (MARK rule in mangle), resolvectl, for every dialogue and every fault schedule that
-leaves the tear-down commands alone.  tproxy / nft / pf: model, correspondence run and oracle
-only (see the report); their theorems are not written yet.
+Proved here for the **nat**, **tproxy** and **nft** methods, both address families, any chain
+body (DNS rules, excludes, port ranges, UDP rules), user/group (nat's MARK rule in mangle),
+resolvectl, for every pre-existing foreign configuration, every dialogue and every fault schedule
+that leaves the tear-down commands alone; plus, per method, the two lemmas the property rests on:
+set-up stopped anywhere leaves a *partial view* over the base configuration, and
+restore_firewall with naturally behaving commands maps every partial view back to exactly the
+base configuration.  tproxy: `Lemmas/FwSessionTproxy*.lean`; nft: `Lemmas/FwSessionNft.lean`; the
+method-independent session argument: `Lemmas/FwSessionGen.lean`.  pf: model and nothing else.
+Tear-down faults and commands that cannot be spawned: oracle on the real code only.
 -/
 import SshuttleModel.Lemmas.FwSessionMain
+import SshuttleModel.Lemmas.FwSessionTproxyMain
 import SshuttleModel.Lemmas.FwSessionPins
 
 namespace Sshuttle.Fw
@@ -186,6 +192,177 @@ theorem C04_setup_fault (c : Config) (hm : c.method = .nat) (d : List Line)
   C04_nat_kth_setup_command_fails c hm d s0 k hd rest hp hu
     ⟨fun h => C04_fresh_natFresh _ _ _ _ (h6 h), fun h => C04_fresh_natFresh _ _ _ _ (h4 h)⟩ hk
 
+
+/-! ## tproxy -/
+
+/-- Nothing of the session's tproxy half is present, per family in use: no chain named after the
+port in the mangle table, no rule there jumping to such a chain. -/
+def TpFreshFor (hd : Hdr) (s : FwState) : Prop :=
+  (hd.has6 = true → TpFresh .v6 hd.port6 s) ∧ (hd.has4 = true → TpFresh .v4 hd.port4 s)
+
+/-- The chain bodies tproxy appends refer to nothing of ours except `-j sshuttle-d-<port>` from the
+tproxy chain (tproxy.py:149-229: targets MARK, TPROXY, RETURN, ACCEPT and that one jump).  The
+harness checks this on every body the real code emits. -/
+def TpBodiesOk (c : Config) (hd : Hdr) : Prop :=
+  (∀ kr ∈ c.body6.body, TpBodyOk hd.port6 kr.1 kr.2) ∧ (∀ kr ∈ c.body4.body, TpBodyOk hd.port4 kr.1 kr.2)
+
+/-- **tproxy: set-up stopped anywhere leaves a partial view.**  Whatever fails while
+`setup_firewall` runs on a base configuration `s` (any k, any number of failures, the initial
+restore included), the result is `s` with a `TpOk` view laid over its mangle table: some of our
+three chains with some rules, our OUTPUT/PREROUTING jumps only if their chain exists, and no rule
+of ours referring to the mark or tproxy chain.  Everything else in `s` is untouched. -/
+theorem C04_tproxy_setup_prefix_partial {f : Fam} {p : Nat} {s : FwState} (hF : TpFresh f p s)
+    (pl : FamPlan) (hf : pl.fam = f) (hp : pl.port = p) (o : Opts)
+    (hbody : ∀ kr ∈ pl.body, TpBodyOk p kr.1 kr.2) (e : Env) (he : e.st = s) :
+    ∃ v, TpOk p v ∧ (tproxySetup pl o e).2.st = putTp f p s v := by
+  have := tproxySetup_hoare hF pl hf hp o hbody e he
+  cases hr : (tproxySetup pl o e).1 <;> rw [hr] at this <;> exact this.2
+
+/-- **tproxy: restore from every partial state returns exactly the pre-session configuration.**
+For every `TpOk` view over a base `s` (foreign chains and rules of `s` arbitrary), tproxy's
+`restore_firewall` with naturally behaving commands ends in `s`: each `nonfatal -D`/`-F` either
+works or fails harmlessly, each `-X` succeeds because nothing refers to the chain any more, the
+divert chain is removed after the tproxy chain that jumps to it.  (Needs the `nonfatal` wrappers
+the repaired tproxy.py has; with the 1.3.0 code this theorem does not build — finding F5.) -/
+theorem C04_tproxy_restore_from_partial {f : Fam} {p : Nat} {s : FwState} (hF : TpFresh f p s)
+    (pl : FamPlan) (hf : pl.fam = f) (hp : pl.port = p) (o : Opts)
+    (e : Env) (hN : NoFault e) (v : TpView) (hv : TpOk p v) (he : e.st = putTp f p s v) :
+    (tproxyRestore pl o e).2.st = s :=
+  (tproxyRestore_natural hF pl hf hp o e hN v hv he).1
+
+/-- **tproxy: set-up is all-or-undone under faults at any command index.**  Any plan, both
+families, any dialogue reaching `GO`, any fault schedule over set-up / DNS flush / wait loop
+(every k, any number), tear-down commands behaving naturally: the configuration after `main`
+equals the configuration before, exactly. -/
+theorem C04_tproxy_setup_fault (c : Config) (hm : c.method = .tproxy) (d : List Line) (e0 : Env)
+    (hd : Hdr) (rest : List Line) (hp : parseDialogue d = .go hd rest)
+    (hfresh : TpFreshFor hd e0.st) (hb : TpBodiesOk c hd)
+    (hnat : ∀ i, (tryBody c hd rest {} e0).2.2.count ≤ i → e0.fail i = false) :
+    (session c d e0).2.st = e0.st :=
+  session_gen (tproxyLayers c hm hd e0.st hfresh.1 hfresh.2 hb.1 hb.2) d e0 rest hp rfl hnat
+
+/-- tproxy, the single k-th set-up command failing, for every k. -/
+theorem C04_tproxy_kth_setup_command_fails (c : Config) (hm : c.method = .tproxy) (d : List Line)
+    (s0 : FwState) (k : Nat) (hd : Hdr) (rest : List Line) (hp : parseDialogue d = .go hd rest)
+    (hfresh : TpFreshFor hd s0) (hb : TpBodiesOk c hd)
+    (hk : k < (tryBody c hd rest {} { st := s0, fail := fun i => i == k }).2.2.count) :
+    (session c d { st := s0, fail := fun i => i == k }).2.st = s0 := by
+  apply C04_tproxy_setup_fault c hm d { st := s0, fail := fun i => i == k } hd rest hp hfresh hb
+  intro i hi
+  simp only [beq_eq_false_iff_ne, ne_eq]
+  omega
+
+/-- tproxy: a fault-free session is the identity, for every dialogue (every truncation point). -/
+theorem C04_tproxy_identity_and_truncation (c : Config) (hm : c.method = .tproxy) (d : List Line)
+    (s0 : FwState)
+    (hfresh : ∀ hd rest, parseDialogue d = .go hd rest → TpFreshFor hd s0 ∧ TpBodiesOk c hd) :
+    (session c d { st := s0 }).2.st = s0 := by
+  cases hp : parseDialogue d with
+  | early => rw [C04_truncation_before_go c d _ (by intro hd rest h; rw [hp] at h; cases h)]
+  | raised x => rw [C04_truncation_before_go c d _ (by intro hd rest h; rw [hp] at h; cases h)]
+  | go hd rest =>
+    obtain ⟨hf, hb⟩ := hfresh hd rest hp
+    exact C04_tproxy_setup_fault c hm d { st := s0 } hd rest hp hf hb (fun _ _ => rfl)
+
+/-- The specification's `fresh port s` gives the freshness the tproxy theorems use. -/
+theorem C04_fresh_tpFresh (f : Fam) (p : Nat) (s : FwState) (h : fresh p s) : TpFresh f p s := by
+  have key : ∀ ch ∈ s.ipt f .mangle,
+      ownsName p ch.name = false ∧ ∀ r ∈ ch.rules, ownsRule p r = false := by
+    intro ch hch
+    have h0 := h.1 f .mangle
+    unfold ownedTable at h0
+    rw [List.filter_eq_nil_iff] at h0
+    have h1 := h0 _ (List.mem_map_of_mem hch)
+    by_cases hn : ownsName p ch.name = true
+    · simp [hn] at h1
+    · simp only [hn, Bool.false_eq_true, if_false, Bool.false_or] at h1
+      have h2 : List.filter (ownsRule p) ch.rules = [] := by
+        cases hl : List.filter (ownsRule p) ch.rules with
+        | nil => rfl
+        | cons a b => rw [hl] at h1; simp at h1
+      rw [List.filter_eq_nil_iff] at h2
+      refine ⟨by simpa using hn, ?_⟩
+      intro r hr
+      simpa using h2 r hr
+  refine ⟨?_, ?_⟩
+  · intro ch hch k hk
+    have := (key ch hch).1
+    rw [hk] at this
+    simp [ownsName] at this
+  · intro ch hch r hr k ht
+    have := (key ch hch).2 r hr
+    simp [ownsRule, ht, ownsName] at this
+
+/-! ## nft -/
+
+/-- No table `sshuttle-ipv{6,4}-<port>` exists, per family in use. -/
+def NftFreshFor (hd : Hdr) (s : FwState) : Prop :=
+  (hd.has6 = true → NftFresh .v6 hd.port6 s) ∧ (hd.has4 = true → NftFresh .v4 hd.port4 s)
+
+/-- **nft: set-up stopped anywhere leaves our table absent or present, nothing else touched.**
+Whatever fails while nft's `setup_firewall` runs (add table, the three chains, flush, the two
+jumps, every body rule — any k, any number), the configuration is the base one with the table
+`sshuttle-ipv{4,6}-<port>` either absent or appended with some chains and rules. -/
+theorem C04_nft_setup_prefix_partial {f : Fam} {p : Nat} {s : FwState} (hF : NftFresh f p s)
+    (pl : FamPlan) (hf : pl.fam = f) (hp : pl.port = p) (o : Opts) (e : Env) (he : e.st = s) :
+    ∃ v, (nftSetup pl o e).2.st = nftLayer f p v s := by
+  have := nftSetup_hoare hF pl hf hp o e he
+  cases hr : (nftSetup pl o e).1 <;> rw [hr] at this <;> exact ⟨this.2.choose, this.2.choose_spec.2⟩
+
+/-- **nft: the delete-table undo returns exactly the pre-session configuration**, from every such
+partial state, with any other tables before (`A`) and after (`B`) ours in the ruleset: a naturally
+behaving `delete table` removes the table with all its chains and rules, or finds nothing. -/
+theorem C04_nft_restore_from_partial {f : Fam} {p : Nat} (pl : FamPlan) (hf : pl.fam = f) (hp : pl.port = p)
+    (o : Opts) (hu : o.udp = false) (A B : List NftTable) (hA : nftHas A (.own f p) = false)
+    (hB : nftHas B (.own f p) = false) (v : Option (List NftChain)) (base : FwState)
+    (e : Env) (hN : NoFault e) (he : e.st = putNft base (A ++ optT (.own f p) v ++ B)) :
+    (nftRestore pl o e).2.st = putNft base (A ++ B) :=
+  (nftRestore_natural pl hf hp o hu A B hA hB v base e hN he).1
+
+/-- **nft: set-up is all-or-undone under faults at any command index** (both families, any plan,
+any dialogue reaching `GO`, any schedule over the `try` body, natural tear-down). -/
+theorem C04_nft_setup_fault (c : Config) (hm : c.method = .nft) (d : List Line) (e0 : Env)
+    (hd : Hdr) (rest : List Line) (hp : parseDialogue d = .go hd rest)
+    (hu : hd.opts.udp = false) (hfresh : NftFreshFor hd e0.st)
+    (hnat : ∀ i, (tryBody c hd rest {} e0).2.2.count ≤ i → e0.fail i = false) :
+    (session c d e0).2.st = e0.st :=
+  session_gen (nftLayers c hm hd e0.st hu hfresh.1 hfresh.2) d e0 rest hp rfl hnat
+
+/-- nft, the single k-th set-up command failing, for every k. -/
+theorem C04_nft_kth_setup_command_fails (c : Config) (hm : c.method = .nft) (d : List Line)
+    (s0 : FwState) (k : Nat) (hd : Hdr) (rest : List Line) (hp : parseDialogue d = .go hd rest)
+    (hu : hd.opts.udp = false) (hfresh : NftFreshFor hd s0)
+    (hk : k < (tryBody c hd rest {} { st := s0, fail := fun i => i == k }).2.2.count) :
+    (session c d { st := s0, fail := fun i => i == k }).2.st = s0 := by
+  apply C04_nft_setup_fault c hm d { st := s0, fail := fun i => i == k } hd rest hp hu hfresh
+  intro i hi
+  simp only [beq_eq_false_iff_ne, ne_eq]
+  omega
+
+/-- nft: a fault-free session is the identity, for every dialogue (every truncation point). -/
+theorem C04_nft_identity_and_truncation (c : Config) (hm : c.method = .nft) (d : List Line)
+    (s0 : FwState)
+    (hfresh : ∀ hd rest, parseDialogue d = .go hd rest → hd.opts.udp = false ∧ NftFreshFor hd s0) :
+    (session c d { st := s0 }).2.st = s0 := by
+  cases hp : parseDialogue d with
+  | early => rw [C04_truncation_before_go c d _ (by intro hd rest h; rw [hp] at h; cases h)]
+  | raised x => rw [C04_truncation_before_go c d _ (by intro hd rest h; rw [hp] at h; cases h)]
+  | go hd rest =>
+    obtain ⟨hu, hf⟩ := hfresh hd rest hp
+    exact C04_nft_setup_fault c hm d { st := s0 } hd rest hp hu hf (fun _ _ => rfl)
+
+/-- The specification's `fresh port s` gives the freshness the nft theorems use. -/
+theorem C04_fresh_nftFresh (f : Fam) (p : Nat) (s : FwState) (h : fresh p s) : NftFresh f p s := by
+  have h2 := h.2.1
+  rw [List.filter_eq_nil_iff] at h2
+  unfold NftFresh nftHas
+  rw [List.any_eq_false]
+  intro t ht hn
+  have := h2 t ht
+  simp only [decide_eq_true_eq] at hn
+  rw [hn] at this
+  simp [ownsNft] at this
+
 /-! ### the hypotheses are satisfiable by a non-trivial configuration and dialogue -/
 
 /-- Built-in chains, a foreign chain with a rule, a foreign jump, another instance on port 23456. -/
@@ -220,5 +397,31 @@ example : ∀ hd rest, parseDialogue (exDialogue.take 3) ≠ .go hd rest := by
   cases h
 
 example : NatPartial {} ⟨some [], true, false, false⟩ := natPartial_some [] true false false (fun _ => rfl)
+
+
+/-- a partial tproxy state: mark and divert chains created, jump to the mark chain in place, the
+tproxy chain not yet -/
+example : TpOk 1025 ⟨true, false, [⟨.own .mark 1025, [⟨.std "MARK", ["--set-mark", "0x01"]⟩]⟩,
+    ⟨.own .divert 1025, []⟩]⟩ := by
+  refine ⟨?_, ?_, ?_, ?_⟩
+  · intro ch hch; simp at hch; rcases hch with rfl | rfl <;> simp
+  · intro _; decide
+  · intro h; cases h
+  · intro ch hch r hr
+    simp at hch
+    rcases hch with rfl | rfl
+    · simp at hr; subst hr; simp
+    · cases hr
+
+example : TpBodyOk 1025 .tproxy ⟨.chain (.own .divert 1025), ["-m", "socket", "-m", "tcp", "-p", "tcp"]⟩ :=
+  ⟨by simp, by simp, fun _ => rfl⟩
+
+example : NftFresh .v4 1025 exState ∧ TpFresh .v6 1025 exState :=
+  ⟨C04_fresh_nftFresh _ _ _ (by
+      refine ⟨fun f t => ?_, by decide, by decide⟩
+      cases f <;> cases t <;> decide),
+   C04_fresh_tpFresh _ _ _ (by
+      refine ⟨fun f t => ?_, by decide, by decide⟩
+      cases f <;> cases t <;> decide)⟩
 
 end Sshuttle.Fw
